@@ -106,8 +106,8 @@ def stepC18 (st : St) (ws : List String) : St × Resp :=
       else if op == "jbound" then
         let (ti, tu) := overlap a b
         let u := t.1 + t.2.1 + t.2.2
-        let bad := (if within u tu tu a.h.p 6 1 then [] else ["union"]) ++
-                   (if within t.2.2 ti tu a.h.p 6 1 then [] else ["intersection"])
+        let bad := (if within u tu tu a.h.p 10 1 then [] else ["union"]) ++
+                   (if within t.2.2 ti tu a.h.p 10 1 then [] else ["intersection"])
         (st, { model := if bad.isEmpty then "within" else "outside " ++ ",".intercalate bad, spec := "within" })
       else (st, { model := "bad-op" })
     | _, _ => (st, { model := "none" })
